@@ -577,6 +577,22 @@ def header_count_rule(o, f, body, sites):
             consts[s.targets[0].id] = {'then': (s.value.body.value, s.value), 'else': (s.value.orelse.value, s.value)}
         if isinstance(s, ast.AugAssign) and isinstance(s.target, ast.Name) and s.target.id in [n.id for n in names] and s.lineno < target.lineno:
             counted[s.target.id] = s
+        if isinstance(s, ast.Assign) and len(s.targets) == 1 and isinstance(s.targets[0], ast.Name) and s.targets[0].id in [n.id for n in names] and s.lineno < target.lineno \
+                and isinstance(s.value, ast.Call) and getattr(s.value.func, 'id', '') == 'sum' and len(s.value.args) == 1 and isinstance(s.value.args[0], ast.GeneratorExp) \
+                and len(s.value.args[0].generators) == 1:
+            # n = sum(<step> for record in <block> if <test>): the counting loop written as a generator - one synthetic `n += <step>` per record
+            g_ = s.value.args[0]
+            c_ = ast.AugAssign(target=ast.Name(id=s.targets[0].id, ctx=ast.Store()), op=ast.Add(), value=g_.elt)
+            ast.copy_location(c_, s)
+
+            class _Loop(object):
+                pass
+            lp_ = _Loop()
+            lp_.iter = g_.generators[0].iter
+            lp_.lineno = s.lineno
+            lp_.col_offset = s.col_offset
+            c_._gen_loop = lp_
+            counted[s.targets[0].id] = c_
     if len(consts) != 1 or len(counted) != 1:
         o.unk('header-count', target, 'per-station parameter count / removed-station counter not recognised')
         return
@@ -597,7 +613,7 @@ def header_count_rule(o, f, body, sites):
     c = counted[list(counted)[0]]
     o.eq('header-count::per-record', c, aff(c.value), const(1), 'removed-station count per matching SOLUTION/EPOCHS record', 'each removed solution takes its parameters once')
     # which block is counted: one record per *solution* (SOLUTION/EPOCHS; SITE/ID lists a station once however many solutions it has)
-    loop = None
+    loop = getattr(c, '_gen_loop', None)
     for lp in [x for x in walk_stmts(body) if isinstance(x, ast.For)]:
         if any(x is c for x in walk_stmts(lp.body)):
             loop = lp
@@ -1588,6 +1604,13 @@ def table_rules(rep, m):
         for cn in counters:
             asg = _assignments(f.node, cn)
             augs = [s for s in walk_stmts(f.node.body) if isinstance(s, ast.AugAssign) and isinstance(s.target, ast.Name) and s.target.id == cn]
+            gens = [a_ for a_ in asg if isinstance(a_.value, ast.Call) and getattr(a_.value.func, 'id', '') == 'sum' and len(a_.value.args) == 1
+                    and isinstance(a_.value.args[0], ast.GeneratorExp)]
+            if len(asg) == 1 and gens and not augs:
+                # n = sum(<step> for record in ...): starts from nothing and adds <step> per record
+                o.rep.holds('R-TABLE', o.base + 'counter::%s::init' % cn, where(f, gens[0]), 'initial value of %s: a sum starts at 0' % cn)
+                o.eq('counter::%s::step' % cn, gens[0], aff(gens[0].value.args[0].elt), const(1), 'increment of %s per record' % cn, 'each record counts once')
+                continue
             if not asg or not augs:
                 o.unk('counter::' + cn, None, 'counter %s not found' % cn)
                 continue
